@@ -173,6 +173,8 @@ class TyEnv:
             return Poly.const(t["v"])
         if k == "adt":
             d = t["def"]
+            if d.startswith("generic_array::typenum::"):
+                d = d[len("generic_array::"):]  # typenum seen through the crate's re-export (witness crates)
             if d == TYPENUM_UTERM:
                 return Poly.const(0)
             if d == TYPENUM_UINT:
